@@ -372,7 +372,7 @@ PROPS = {
         "assumptions": ["the model runs the wrapper over a slice; C08 extends to other inputs"],
     },
     "C12": {
-        "streams": ["mem", "wrapops", "bigmem"],
+        "streams": ["mem", "wrapops", "bigmem", "userext", "big"],
         "rule": "mem requests for every DecodeWithMemTracking catalogue type on valid and mutated encodings: first L = usize::MAX (gives U = used_mem()), then every L in 0..=U+1 when U <= 96 (4096 thorough), boundary limits {0,1,U/2,U-1,U,U+1,2U} otherwise: result, remaining and used_mem() compared with the model after success and failure; oracles: non-binding limit transparent, success for all L > U, failure for all 0 < L <= U; plus operation sequences (hook sizes incl. 0, usize::MAX and saturating sums; limits incl. 0 and usize::MAX) on a real MemTrackingInput vs the model, used_mem() compared after every operation. non-trivial = distinct request whose model answer is not `err`; for every untampered encoding used_mem() of the real crate is compared with the model's payload(ty, v) Also: usage seen through decode_with_depth_limit over a MemTrackingInput, through CountedInput over it and through a tracker stacked on a tracker must equal U; skip under every limit agrees with decode; the probe inner input (mops2).",
         "level_text": "Proved in Lean for every type, byte string and limit L <= usize::MAX: memory-limited decoding returns exactly the unlimited result or an error; with U the tracked usage of the unlimited run, if unlimited decoding succeeds then L > U gives the same value, position and used_mem = U, and U > 0 with L <= U gives an error - a single exact threshold (hence monotone). The hook sizes (chunked vec reservations, Box sizes, list node sizes, the transliterated mem_size_of_btree estimate) are part of the decoder model and compared with used_mem() of the real MemTrackingInput on every request. The threshold is meaningful: by the hook-trace theorem the sizes announced while decoding the encoding of any well-formed value add up to exactly payload ty v - element count x element size per sequence, pointee size per box, string/byte-buffer length, bit-sequence storage words, the crate's node estimate for trees, summed over nesting (tracked_usage_is_payload: U = min(payload, usize::MAX)); U = 0 for heap-free types (usage_zero_without_heap); a successful memory-limited decode implies payload < L (limit_bounds_payload); the tree estimate is within a factor of two of the entries' own bytes (tree_estimate_within_factor_two, arithmetic on the transliterated mem_size_of_btree).",
         "level_note": "Trusted: as C01; size_of values and the b-tree leaf size are measured by the harness in the same build and passed in the type descriptor. 'U is zero for values holding no heap data and at least the payload bytes' is a theorem (tracked_usage_is_payload: U = the value's heap payload, summed over nesting and capped at usize::MAX; usage_zero_without_heap; limit_bounds_payload) and is tied per request by comparing the model's U with the real used_mem(). User-defined wrapper types relying on the provided WrapperTypeDecode::decode_wrapped announce nothing (Ty.wrap; user_wrapper_announces_nothing) - unlike Box, which at a limit of 0 is refused even for a zero-sized pointee.",
@@ -380,7 +380,7 @@ PROPS = {
         "assumptions": ["limits are usize values (L <= 2^64-1)"],
     },
     "C08": {
-        "streams": ["stacks", "big", "dvl"],
+        "streams": ["stacks", "big", "dvl", "userext"],
         "rule": "for every catalogue type, on exact, suffixed, mutated and truncated encodings: the same bytes decoded through 12 input stacks - &[u8], IoReader<Cursor>, IoReader over a reader delivering 1..3 bytes per call, a custom Input with remaining_len = None, decode_from_bytes (shared buffer incl. zero-copy path), CountedInput / MemTrackingInput(usize::MAX) / depth-limit(u32::MAX) alone and nested three deep in different orders over slice, unknown-length and short-read inputs; oracle on the implementation: every stack gives the slice's outcome (ok value + bytes consumed | err); the slice, IoReader and BytesCursor outcomes are also compared with the model's three input instances. non-trivial = distinct request whose model answer is not `err` Also: many sibling holders (8/70/300 Box/Rc/Arc elements, also of zero-sized pointees) under depth limits 3 and 8 alone and under counting+memory wrappers; big lengths and straddling strings through unknown-length inputs; `decbc` answered by the model's BytesCursor with position arithmetic (cursorInput).",
         "level_text": "Proved in Lean (lax simulation theorem over all decoder programs): over ANY input that delivers the bytes faithfully - whatever it reports as remaining length and wherever it stands after a failed read - every decoder returns what it returns over the slice: same success/failure and value, and on success the same bytes consumed. Instances proved faithful: the slice, the unknown-length read_exact reader (IoReader / short-chunk readers / custom None-length inputs), the BytesCursor incl. its zero-copy scale_internal_decode_bytes override, and CountedInput over any faithful input. Depth- and memory-limit wrappers over ANY input are proved transparent (same result and wrapped-input state) whenever their limit is non-binding (>= needed depth / > tracked usage) and never to turn a failure into a success; so wrappers stack in any order. The only decoder branch that consults remaining_len (read_vec_from_u8s) is shown to reject early exactly when the chunked reads would reject later. Tied to the crate by the stacks stream.",
         "level_note": "Trusted: as C01; std::io::Read::read_exact and bytes::Bytes (advance/split_to) are modelled by contract (all-or-nothing delivery). After a FAILED decode the position of a non-slice input is unspecified and not compared. Inputs longer than usize::MAX bytes are excluded (`bounded`).",
@@ -422,7 +422,7 @@ PROPS = {
         "assumptions": ["as C02 for decodability"],
     },
     "C06": {
-        "streams": ["hist", "enc", "bulk"],
+        "streams": ["hist", "enc", "bulk", "sinks"],
         "rule": "construction histories, bytes compared after EVERY step with the model and (oracle) with the encoding of a freshly collected vector: VecDeque<u8/u32/String/derived/Option<u16>> under 5..45 random push_front/push_back/pop/rotate/make_contiguous/reserve/shrink_to_fit/insert (the model receives the actual two slices of as_slices(); the evidence counts steps in a wrapped state); Vec/String under push/pop/reserve/shrink/remove; BTreeMap/BTreeSet reached by two different insert/remove histories; LinkedList under push/split_off/append; BitSlice<u8..u64, Lsb0/Msb0> sub-slices at every start offset 0..2w and six lengths vs a fresh BitVec of the same bits; Box/Rc/Rc-clone/Arc/Cow::Borrowed/Cow::Owned/&T/&&T/Box<&T> holders of one value; plus the enc stream (oracle: encoding twice gives the same bytes). non-trivial = distinct request whose model answer is not `err`",
         "level_text": "Proved in Lean: for EVERY split of a deque's contents into the two slices as_slices() may return the transliterated VecDeque::encode_to yields the encoding of the vector of its elements (every ring-buffer state at once); for any lawful key order the same entries inserted in any order (any permutation) produce the same iteration order and hence the same map/set encoding; Box/Rc/Arc are transparent (and &T, &mut T, Cow, Ref are the held type in a descriptor); collection flavour and size_of/capacity do not enter the encoding; a bit sequence's encoding is a function of its bit list alone; the encoder is a function (determinism). In the model a value IS its logical content, so spare capacity, ring position, insertion history and bit offset cannot influence the model's bytes - that this frame condition holds of the real code is what the hist stream establishes step by step. The modelled key order (Val.cmp) is proved a lawful total order on all values (swap, transitivity, equality only on identical values), so the map/set theorems hold unconditionally for it.",
         "level_note": "Trusted: as C01. VecDeque::as_slices (its two slices concatenate to the content), BTreeMap/BTreeSet iteration in key order, BitSlice::chunks / copy_from_bitslice are std/bitvec contracts - exactly the hypotheses of the theorems - exercised by the tie. The lawfulness of Ord for key types is an assumption of the map theorem (proved for the model order only as far as antisymmetry). BinaryHeap is deliberately outside this property (its encoding follows its internal order).",
